@@ -55,3 +55,12 @@ Theorem engine_document_additive_in_rows : forall cfg fe scfg raw1 raw2 d rules 
   forall x, In x l12 <-> In x l1 \/ In x l2.
 Proof. exact engine_plain_document_additive_in_rows. Qed.
 Print Assumptions engine_document_additive_in_rows.
+
+(* FOR EVERY DOCUMENT -- referencing object maps with and without join conditions, quoted triples maps of any depth, function executions --
+   the generation rules read each table as a SET of rows: two tables with the same rows, in any order, with or without repeated rows, give the
+   same statements (a statement depends on the rows it is generated from, never on their position or multiplicity) *)
+From Morph Require Import Proofs.DocRowSetsP.
+Theorem every_document_depends_on_row_sets_only : forall scfg fe d t1 t2, (forall src sr, In sr (t1 src) <-> In sr (t2 src)) ->
+  forall x, In x (spec_lines scfg fe d t1) <-> In x (spec_lines scfg fe d t2).
+Proof. exact document_depends_on_row_sets. Qed.
+Print Assumptions every_document_depends_on_row_sets_only.
